@@ -38,6 +38,7 @@ CONSTANTS P,        \* protocol ids
           Reqs,     \* the request lists the dialer uses: sequences of distinct ids
           Slots,    \* stream slots 1..N (concurrently open streams)
           MaxTbl,   \* bound on the length of the handler table
+          Tokens,   \* ids the application's first bytes may spell as a well-formed multistream token
           Lazy,     \* TRUE: BasicHost (peerstore knowledge -> lazy select); FALSE: BlankHost (always negotiates)
           Push      \* TRUE: identify push from B reaches A after every change of B's name set
 
@@ -148,17 +149,27 @@ Open(s, req) ==
           /\ op' = [name |-> "open", s |-> s, req |-> req, res |-> "fail", p |-> "", h |-> NoH]
   /\ UNCHANGED tbl
 
-Use(s) ==
+\* q = "": opaque application bytes.  q in Tokens: the first bytes A's application writes are
+\* <varint len>q<newline>, i.e. they read as a multistream proposal of q.  That matters only when B
+\* refuses the optimistically chosen id: B answers "na" and KEEPS negotiating on the bytes that follow
+\* (go-multistream Negotiate loop), so a registered acceptor of q is started on a stream A never asked
+\* q for and which A sees fail ("stray").  Modelled as the code behaves; see NoStray.
+Use(s, q) ==
   /\ st[s].ph \in {"lazy", "est"}
+  /\ q # "" => (st[s].ph = "lazy" /\ ListenerNegotiate(tbl, st[s].p) = 0)
   /\ IF st[s].ph = "est"
      THEN /\ UNCHANGED st
-          /\ op' = [name |-> "use", s |-> s, first |-> FALSE, res |-> "ok", p |-> st[s].p, h |-> st[s].h]
+          /\ op' = [name |-> "use", s |-> s, first |-> FALSE, res |-> "ok", p |-> st[s].p, h |-> st[s].h,
+                    q |-> "", stray |-> NoH]
      ELSE LET j == ListenerNegotiate(tbl, st[s].p) IN
           IF j # 0
           THEN /\ st' = [st EXCEPT ![s] = [ph |-> "est", p |-> st[s].p, h |-> tbl[j]]]
-               /\ op' = [name |-> "use", s |-> s, first |-> TRUE, res |-> "ok", p |-> st[s].p, h |-> tbl[j]]
-          ELSE /\ st' = [st EXCEPT ![s] = Idle]
-               /\ op' = [name |-> "use", s |-> s, first |-> TRUE, res |-> "fail", p |-> st[s].p, h |-> NoH]
+               /\ op' = [name |-> "use", s |-> s, first |-> TRUE, res |-> "ok", p |-> st[s].p, h |-> tbl[j],
+                         q |-> "", stray |-> NoH]
+          ELSE LET k == IF q = "" THEN 0 ELSE ListenerNegotiate(tbl, q) IN
+               /\ st' = [st EXCEPT ![s] = Idle]
+               /\ op' = [name |-> "use", s |-> s, first |-> TRUE, res |-> "fail", p |-> st[s].p, h |-> NoH,
+                         q |-> q, stray |-> IF k # 0 THEN tbl[k] ELSE NoH]
   /\ UNCHANGED <<tbl, K>>
 
 Close(s) ==
@@ -176,7 +187,7 @@ Next == \/ \E e \in Entries : Add(e)
         \/ Forget
         \/ Learn
         \/ \E s \in Slots, req \in Reqs : Open(s, req)
-        \/ \E s \in Slots : Use(s)
+        \/ \E s \in Slots, q \in Tokens \cup {""} : Use(s, q)
         \/ \E s \in Slots : Close(s)
 
 Spec == Init /\ [][Next]_vars
@@ -218,6 +229,12 @@ NoCommon ==
      /\ (op'.name \in {"use", "close"} /\ st[op'.s].ph = "lazy"
            /\ ~\E e \in Range(tbl) : Accepts(e, st[op'.s].p)) => op'.h = NoH /\ st'[op'.s].ph = "idle"
      /\ (op'.name \in {"open", "use"} /\ op'.res = "fail") => op'.h = NoH]_vars
+
+\* KNOWN FINDING (payload-parsed-as-proposal): "no application handler runs" fails for a refused
+\* optimistic choice whose application bytes read as a proposal.  NoStray is therefore EXPECTED TO BE
+\* VIOLATED (the driver asserts that TLC finds the counterexample; the replay reproduces it on the
+\* real hosts); every other property holds with the behaviour modelled.
+NoStray == [][op'.name = "use" => op'.stray = NoH]_vars
 
 \* RemovedNeverRuns (model level): whatever serves or is invoked is in the table of that moment
 RemovedNeverRuns ==
